@@ -170,19 +170,35 @@ func HarnessC23Crash() { zzvCrash() }
 // HarnessC23Crash2: the same from states reached by exactly two setup operations (thorough tier only).
 func HarnessC23Crash2() { zzvCrash() }
 
+// HarnessC23CrashRD: the same from the scripted state {node 0 recursive, node 1 direct} (SCRIPT=1) with the
+// interrupted operation restricted to Unpin and Update (NOPINS=1; the Pin variants from one-pin states are
+// HarnessC23Crash): covers Update onto a directly pinned CID and unpin of either next to another pin.
+func HarnessC23CrashRD() { zzvCrash() }
+
 func zzvCrash() {
 	n := verifrt.Param("N", 2)
 	d := zzvNewDag(n, false)
 	m := &zzvModel{n: n}
 	st := &zzvLogDS{inner: ds.NewMapDatastore()}
 	p := zzvNewPinner(d, st)
-	pre := verifrt.NondetRange("pre", verifrt.Param("PREMIN", 0), verifrt.Param("PRE", 1))
-	for i := 0; i < pre; i++ {
-		zzvStep(p, d, m, zzvStepOpt{setup: true, succeed: true})
+	if verifrt.Param("SCRIPT", 0) == 1 {
+		// scripted state: node 0 pinned recursively, node 1 pinned directly (symbolic 1-byte names)
+		ctx := context.Background()
+		n0 := verifrt.NondetString("name", 1)
+		n1 := verifrt.NondetString("name", 1)
+		verifrt.Assume(p.PinWithMode(ctx, d.cids[0], ipfspinner.Recursive, n0) == nil)
+		m.set(0, zzvRec, n0)
+		verifrt.Assume(p.PinWithMode(ctx, d.cids[1], ipfspinner.Direct, n1) == nil)
+		m.set(1, zzvDir, n1)
+	} else {
+		pre := verifrt.NondetRange("pre", verifrt.Param("PREMIN", 0), verifrt.Param("PRE", 1))
+		for i := 0; i < pre; i++ {
+			zzvStep(p, d, m, zzvStepOpt{setup: true, succeed: true})
+		}
 	}
 	base := zzvCountWrites(st.log)
 	m0 := *m
-	info := zzvStep(p, d, m, zzvStepOpt{faults: verifrt.Param("FAULTS", 0) == 1, skipMode: verifrt.Param("SKIPMODE", 0) == 1})
+	info := zzvStep(p, d, m, zzvStepOpt{faults: verifrt.Param("FAULTS", 0) == 1, skipMode: verifrt.Param("SKIPMODE", 0) == 1, noPins: verifrt.Param("NOPINS", 0) == 1})
 	total := zzvCountWrites(st.log)
 	verifrt.Observe("writes", total-base)
 	verifrt.Observe("failed", info.failed)
